@@ -347,6 +347,10 @@ H("conn_on_packet_authenticated_native", ["C04"], "replay-only", "connection::on
 
 H("conn_migrate_native", ["C15"], "replay-only", "connection::migrate_native",
   [("old_challenged", "bool"), ("old_pending", "bool"), ("v4", "bool")], 4, [], ["Connection::migrate"], "native replay body of E2 query e2_migrate")
+H("conn_close_inner_native", ["C08"], "replay-only", "connection::close_inner_native",
+  [("state", "u8")], 4, [], ["Connection::close_inner"], "native replay body of E2 query e2_close_inner")
+H("conn_kill_native", ["C08"], "replay-only", "connection::kill_native",
+  [("state", "u8")], 4, [], ["Connection::kill"], "native replay body of E2 query e2_kill")
 H("conn_peer_params_cid_auth_native", ["C14", "C04"], "replay-only", "connection::peer_params_cid_auth_native",
   [("server", "bool"), ("which", "u8")], 4, [], ["Connection::handle_peer_params"], "native replay body of E2 query e2_peer_params_cid_auth")
 
